@@ -239,6 +239,22 @@ def step (s : St) (w : List String) : St × String :=
           let vn := valueNode b
           "ok " ++ hex b ++ " str=" ++ str ++ " vn=" ++ hex (encode vn) ++ " h=" ++ hex (sha3 (hashBytes vn)))
     | none => (s, "bad-op")
+  | ["bulk", n, seed] =>
+    let step := fun (acc : Node × Nat) (_ : Nat) =>
+      let x := (acc.2 * 6364136223846793005 + 1442695040888963407) % 18446744073709551616
+      let path : List Nib := (List.range 8).map (fun j => Fin.ofNat 16 ((x >>> (60 - 4 * j)) % 16))
+      let val : Bytes := [UInt8.ofNat (0x41 + (x >>> 8) % 26), UInt8.ofNat (x % 256)]
+      ((Trie.insert maxSize s.v acc.1 path val).1, x)
+    let r := (List.range n.toNat!).foldl step (s.t, seed.toNat!)
+    ({ s with t := r.1, touched := none }, "ok " ++ keyStr (root sha3 r.1))
+  | ["rmleaves", k] =>
+    let leafIdx := (List.range s.order.length).filter (fun j => j > 0 && match s.order[j]? with
+      | some e => (match e.2.body with | .leaf _ _ _ => true | _ => false)
+      | none => false)
+    let ks := keysAt s (leafIdx.take k.toNat!)
+    let sorted := sortBytes ks
+    ({ s with cur := without s.full ks, removed := ks, hit := [] },
+      "ok " ++ toString sorted.length ++ " " ++ hex (sha3 sorted.flatten))
   | ["layer"] => (s, "ok")
   | ["touch", v] => ({ s with touched := some v.toNat! }, "ok")
   | ["store"] => (s, storeLine s.t s.touched)
